@@ -319,7 +319,7 @@ def parse_traces(path):
     return cases
 
 
-NOUNI_KINDS = {"namelen-ascii", "sess-ascii", "sess-exact", "foreign-read", "foreign-write"}
+NOUNI_KINDS = {"namelen-ascii", "sess-ascii", "sess-exact", "foreign-read", "foreign-write", "slot-soup"}
 
 
 def c19_compare(outdir, jobs, counters):
